@@ -39,6 +39,10 @@ type input struct {
 	Tree *Node  `json:"tree,omitempty"` // grammar stream
 	Raw  []byte `json:"raw,omitempty"`  // malformed stream (base64: arbitrary bytes survive)
 	Q    string `json:"q,omitempty"`    // the reference string Go-quoted, for readers only
+	// Before: references rendered EARLIER through the same SnippetWriter (same namer, same tracker), in order.  The
+	// property is evaluated on Tree; the earlier renders only put the tracker into a state (names already handed out).
+	Before []*Node `json:"before,omitempty"`
+	K      string  `json:"k,omitempty"` // generator stream (distribution tag only)
 }
 
 func (n *Node) render(b *strings.Builder) {
@@ -197,6 +201,123 @@ func nestedCommaTree(r *core.RNG) *Node {
 	return top
 }
 
+// ---- import names that are also package paths ----
+//
+// A single-element package path ("model", "store", "bmodel") is spelled exactly like an import name.  When the tracker
+// has ALREADY handed out that word as the import name of a different package (example.com/a/model -> model) - earlier
+// in the same argument list, or in an earlier render through the same writer - the single-element package is still a
+// package of its own: it must be registered (under another name) and its occurrences rewritten to that name.
+
+var collisionWords = []string{"model", "store", "meta", "util", "core", "api", "v1", "kube"}
+
+func longPathFor(r *core.RNG, w string) string {
+	switch r.Intn(6) {
+	case 0:
+		return "example.com/a/" + w
+	case 1:
+		return "x.io/domain/" + w // the "domain" rule: the name is what follows it
+	case 2:
+		return "github.com/q/apis/" + w
+	case 3:
+		return "example.com/" + w + "/v2" // version segments are glued on: modelv2
+	case 4:
+		return "b.io/y/" + w
+	}
+	return "k8s.io/" + w
+}
+
+// aliasesOf: the import names a fresh tracker of the code under test hands out when the foreign packages of the given
+// references are registered in rendering order (arguments in pre-order, then the head).  Used for GENERATION only.
+func aliasesOf(self string, trees ...*Node) (names []string, taken map[string]bool) {
+	taken = map[string]bool{}
+	core.Recover(func() {
+		tr := namer.NewDefaultImportTracker()
+		reg := func(p string) {
+			if p == "" || p == self {
+				return
+			}
+			taken[p] = true
+			tr.AddType(gtypes.Ref(p, "T"))
+			if n := tr.LocalNameOf(p); n != "" && n != p {
+				names = append(names, n)
+			}
+		}
+		for _, t := range trees {
+			for _, a := range t.A {
+				a.each(func(n *Node, _ int) { reg(n.P) })
+			}
+			reg(t.P)
+		}
+	})
+	return
+}
+
+// collisionCase: a reference in which a single-element package path equal to an import name handed out earlier occurs
+// AFTER the package that got the name (late = true) or before it (the control), in the same argument list
+// (before = nil) or after an earlier render through the same writer.
+func collisionCase(r *core.RNG, sameList bool) input {
+	self := core.Pick(r, []string{"main/pkg", "main/pkg", "s/self", "example.com/a/model"})
+	mkLong := func() *Node {
+		w := core.Pick(r, collisionWords)
+		n := &Node{P: longPathFor(r, w), N: core.Pick(r, names)}
+		if r.Chance(30) { // a second package wanting the same name: the tracker falls back to a longer one (ymodel, ...)
+			n = &Node{P: "example.com/x/generic", N: "Pair", A: []*Node{n, {P: longPathFor(r, w), N: core.Pick(r, names)}}}
+		}
+		return n
+	}
+	first := mkLong()
+	if r.Chance(40) {
+		first = &Node{P: core.Pick(r, []string{"example.com/x/generic", "x", "github.com/a/b"}), N: "List", A: []*Node{first}}
+	}
+	var in input
+	in.Self = self
+	var earlier []*Node
+	if sameList {
+		in.Tree = &Node{P: core.Pick(r, []string{"example.com/x/generic", "x", "github.com/a/b"}), N: core.Pick(r, []string{"Pair", "Map", "M"}), A: []*Node{first}}
+		earlier = []*Node{{N: "x", A: []*Node{first}}} // only what is walked before the new argument
+	} else {
+		in.Before = []*Node{first}
+		if r.Chance(30) {
+			in.Before = append(in.Before, mkLong())
+		}
+		in.Tree = &Node{P: core.Pick(r, []string{"example.com/x/generic", "x", "github.com/a/b"}), N: core.Pick(r, []string{"List", "Map", "M"})}
+		earlier = in.Before
+	}
+	al, taken := aliasesOf(self, earlier...)
+	var free []string
+	for _, a := range al {
+		if !taken[a] && a != self {
+			free = append(free, a)
+		}
+	}
+	if len(free) == 0 {
+		free = []string{"model"}
+	}
+	k := 1 + r.Intn(2)
+	for i := 0; i < k; i++ {
+		leaf := &Node{P: core.Pick(r, free), N: core.Pick(r, names)}
+		for d := r.Intn(3); d > 0; d-- { // at any depth
+			leaf = &Node{P: core.Pick(r, []string{"", "x", "example.com/x/generic"}), N: "List", A: []*Node{leaf}}
+		}
+		if leaf.P == "" && len(leaf.A) > 0 && r.Bool() {
+			leaf.P = "example.com/x/generic"
+		}
+		in.Tree.A = append(in.Tree.A, leaf)
+	}
+	if sameList && r.Chance(25) { // control: the single-element path comes first
+		a := in.Tree.A
+		a[0], a[len(a)-1] = a[len(a)-1], a[0]
+	}
+	if r.Chance(20) {
+		in.Tree.A = append(in.Tree.A, &Node{P: core.Pick(r, paths), N: "T"})
+	}
+	in.K = "alias-collision-same-list"
+	if !sameList {
+		in.K = "alias-collision-earlier-render"
+	}
+	return in
+}
+
 func malformed(r *core.RNG) string {
 	base := genTree(r, 0, 3, 3, 60)
 	if base.P == "" {
@@ -268,6 +389,26 @@ func (prop) Generate(r *core.RNG, tier string) []json.RawMessage {
 	}
 	for _, s := range []string{"", "a", "a.b", ".a", "a.", "[", "]", "a[", "a]", "a[]", "a.b[]", "a.b[c,]", "a.b[,c]", "a.b[c", "a.b[c]d", "a.b[c]]", "[a.b]", "a.b[\xff]", "p.M[a],b]", "a/b.c[d.e[f],g"} {
 		add(input{Self: "p", Raw: []byte(s)})
+	}
+	// a single-element package path spelled like an import name the tracker gave to another package before
+	pair := func(a, b *Node) *Node { return &Node{P: "example.com/x/generic", N: "Pair", A: []*Node{a, b}} }
+	list := func(a *Node) *Node { return &Node{P: "example.com/x/generic", N: "List", A: []*Node{a}} }
+	for _, self := range []string{"main/pkg", "example.com/x/generic"} {
+		add(input{Self: self, Tree: pair(leaf("example.com/a/model", "T"), leaf("model", "U"))})
+		add(input{Self: self, Tree: pair(leaf("model", "U"), leaf("example.com/a/model", "T"))})
+		add(input{Self: self, Tree: list(list(leaf("store", "Item"))), Before: []*Node{leaf("example.com/domain/store", "Key")}})
+		add(input{Self: self, Tree: list(leaf("example.com/domain/store", "Key")), Before: []*Node{leaf("store", "Item")}})
+		add(input{Self: self, Tree: pair(pair(leaf("a.io/x/model", "T"), leaf("b.io/y/model", "T")), list(leaf("ymodel", "U")))})
+		add(input{Self: self, Tree: pair(leaf("example.com/model/v2", "T"), leaf("modelv2", "U"))})
+		add(input{Self: self, Tree: pair(leaf("example.com/x/time", "T"), leaf("time", "Duration"))})
+		add(input{Self: self, Tree: list(leaf("model", "U")), Before: []*Node{leaf("model", "T"), leaf("example.com/a/model", "T")}})
+	}
+	nc := 120
+	if tier == "thorough" {
+		nc = 1500
+	}
+	for i := 0; i < nc; i++ {
+		add(collisionCase(r, i%2 == 0))
 	}
 	for i := 0; i < n; i++ {
 		switch k := r.Intn(20); {
@@ -515,6 +656,11 @@ func (prop) Run(raw json.RawMessage, _ string) core.Result {
 	idTerm := "None"
 	if p, v := core.Recover(func() {
 		sw := gengo.NewSnippetWriter(&buf, namer.NameSystems{"raw": namer.NewRawNamer(in.Self, rt)})
+		for _, b := range in.Before { // earlier renders through the same writer: only the tracker's state is kept
+			sw.Render(snippet.ID(b.String()))
+		}
+		buf.Reset()
+		rt.adds = nil
 		sw.Render(snippet.ID(s))
 	}); p {
 		obs.IDPanic = fmt.Sprint(v)
@@ -562,8 +708,19 @@ func (prop) Run(raw json.RawMessage, _ string) core.Result {
 	for _, a := range rt.adds {
 		addItems = append(addItems, y.hex(a))
 	}
-	res.Coq = y.wrap(fmt.Sprintf("mk_case %s %s %s %s %s %s %s %s %s %s", y.hex(in.Self), y.hex(s), treeTerm, core.CoqList(nameItems),
-		parseTerm, refTerm, y.hex(refStr), exposeTerm, idTerm, core.CoqList(addItems)))
+	// packages the earlier renders had to register (part of the INPUT: foreign paths of the Before references)
+	var preItems []string
+	preSeen := map[string]bool{}
+	for _, b := range in.Before {
+		b.each(func(n *Node, _ int) {
+			if n.P != "" && n.P != in.Self && !preSeen[n.P] {
+				preSeen[n.P] = true
+				preItems = append(preItems, y.hex(n.P))
+			}
+		})
+	}
+	res.Coq = y.wrap(fmt.Sprintf("mk_case %s %s %s %s %s %s %s %s %s %s %s", y.hex(in.Self), y.hex(s), treeTerm, core.CoqList(nameItems),
+		parseTerm, refTerm, y.hex(refStr), exposeTerm, idTerm, core.CoqList(addItems), core.CoqList(preItems)))
 
 	// distribution
 	if in.Tree != nil {
@@ -609,6 +766,22 @@ func (prop) Run(raw json.RawMessage, _ string) core.Result {
 			res.Tags = append(res.Tags, "versioned_path")
 		}
 		res.Tags = append(res.Tags, fmt.Sprintf("foreign_packages=%d", min(len(foreign), 5)))
+		if in.K != "" {
+			res.Tags = append(res.Tags, "gen="+in.K)
+		}
+		if len(in.Before) > 0 {
+			res.Tags = append(res.Tags, "earlier_renders_same_writer")
+		}
+		// a single-element foreign path that IS an import name handed out (to another package) by the end of the render
+		for p := range foreign {
+			if !strings.Contains(p, "/") {
+				for q, nm := range obs.Imports {
+					if nm == p && q != p {
+						res.Tags = append(res.Tags, "path_spelled_like_a_given_import_name")
+					}
+				}
+			}
+		}
 	} else {
 		res.Nontrivial = strings.ContainsAny(s, "[],")
 		res.Tags = append(res.Tags, "malformed", "malformed_parse_"+obs.Parse)
@@ -643,13 +816,24 @@ func (prop) Shrink(raw json.RawMessage) []json.RawMessage {
 		}
 		return out
 	}
+	// earlier renders: drop one, or reduce one to a bare reference of one of its packages
+	for i, b := range in.Before {
+		add(input{Self: in.Self, Tree: in.Tree, Before: append(append([]*Node(nil), in.Before[:i]...), in.Before[i+1:]...)})
+		b.each(func(n *Node, lvl int) {
+			if n.P != "" && (lvl > 0 || len(n.A) > 0) {
+				c := append([]*Node(nil), in.Before...)
+				c[i] = &Node{P: n.P, N: "T"}
+				add(input{Self: in.Self, Tree: in.Tree, Before: c})
+			}
+		})
+	}
 	// subtrees (keeping a package path on the outermost reference when there was one)
 	for _, a := range in.Tree.A {
 		c := a.clone()
 		if c.P == "" {
 			c.P = in.Tree.P
 		}
-		add(input{Self: in.Self, Tree: c})
+		add(input{Self: in.Self, Tree: c, Before: in.Before})
 	}
 	// edits at every node
 	var nodes []*Node
@@ -660,7 +844,7 @@ func (prop) Shrink(raw json.RawMessage) []json.RawMessage {
 			var cn []*Node
 			c.each(func(n *Node, _ int) { cn = append(cn, n) })
 			if f(cn[k]) {
-				add(input{Self: in.Self, Tree: c})
+				add(input{Self: in.Self, Tree: c, Before: in.Before})
 			}
 		}
 		for j := range nodes[k].A {
@@ -679,7 +863,7 @@ func (prop) Shrink(raw json.RawMessage) []json.RawMessage {
 		edit(func(n *Node) bool { r := len(n.N) > 1; n.N = "a"; return r })
 	}
 	if in.Self != "p" {
-		add(input{Self: "p", Tree: in.Tree})
+		add(input{Self: "p", Tree: in.Tree, Before: in.Before})
 	}
 	return out
 }
